@@ -176,10 +176,6 @@ func DocFlow(w *load.World, c *core.Collector) {
 			if !ok {
 				continue
 			}
-			bo, ok := ifi.Cond.(*ssa.BinOp)
-			if !ok || (bo.Op != token.EQL && bo.Op != token.NEQ) {
-				continue
-			}
 			isNF := func(v ssa.Value) bool {
 				u, ok := v.(*ssa.UnOp)
 				if !ok {
@@ -187,6 +183,27 @@ func DocFlow(w *load.World, c *core.Collector) {
 				}
 				g, ok := u.X.(*ssa.Global)
 				return ok && g.Name() == "ErrPointDoesNotExist"
+			}
+			// errors.Is(err, ErrPointDoesNotExist) (possibly negated) is the same test
+			{
+				cond, neg := ifi.Cond, false
+				if u, ok := cond.(*ssa.UnOp); ok && u.Op == token.NOT {
+					cond, neg = u.X, true
+				}
+				if call, ok := cond.(*ssa.Call); ok {
+					if g := call.Call.StaticCallee(); g != nil && g.String() == "errors.Is" && len(call.Call.Args) == 2 && isNF(call.Call.Args[1]) {
+						e := 0
+						if neg {
+							e = 1
+						}
+						notFound = append(notFound, ssax.Edge{From: b, Succ: e})
+						continue
+					}
+				}
+			}
+			bo, ok := ifi.Cond.(*ssa.BinOp)
+			if !ok || (bo.Op != token.EQL && bo.Op != token.NEQ) {
+				continue
 			}
 			if isNF(bo.X) || isNF(bo.Y) {
 				e := 0
